@@ -75,8 +75,17 @@ def run(ctx):
         files = files[::4]
     for fn in files:
         for case in (("upper",) if not thorough else ("upper", "preserve", "lower")):
-            def build(fn=fn, case=case):
-                return lasio.read(fn, mnemonic_case=case), None
+            def build(fn=fn, case=case, edit=None):
+                las = lasio.read(fn, mnemonic_case=case)
+                d = las.curves[0].data if len(las.curves) else None
+                if edit and d is not None and len(d) >= 3 and d.dtype.kind == "f":
+                    # the object is copied AFTER its index was edited in memory (the last sample still equals the header STOP)
+                    if edit == "first":
+                        d[0] = d[0] - (d[1] - d[0]) * 0.5
+                    else:
+                        for c in list.__iter__(las.curves):
+                            c.data = c.data[1:]
+                return las, None
             try:
                 build()
             except Exception:
@@ -84,6 +93,9 @@ def run(ctx):
             for how in (copying.HOWS if thorough else [rng.choice(copying.HOWS[:6]), "deepcopy"]):
                 add(lambda b=build: (b()[0], lambda las: las), how, "las", ["field", "array"],
                     {"file": fn.replace(core.REPO, ""), "case": case})
+                for edit in ("first", "trim"):
+                    add(lambda b=build, e=edit: (b(edit=e)[0], lambda las: las), how, "las", ["field", "array"],
+                        {"file": fn.replace(core.REPO, ""), "case": case, "index_edited_before_copy": edit})
     for i in range(300 if thorough else 40):
         seedtxt = rng.random()
 
@@ -100,6 +112,9 @@ def run(ctx):
             if r2.random() < 0.4 and "TXT" not in mn:
                 kw["dtypes"] = [r2.choice([int, float, str]) for _ in mn]
             las = lasio.read("\n".join(lines) + "\n", mnemonic_case=r2.choice(["upper", "lower", "preserve"]), **kw)
+            d0 = las.curves[0].data
+            if r2.random() < 0.5 and len(d0) >= 2 and d0.dtype.kind == "f":
+                d0[0] -= 0.25          # the index is edited in memory before the copy is taken
             if r2.random() < 0.5:       # arrays of other dtypes assigned through the public API
                 las.append_curve("INTS", np.arange(rows, dtype=r2.choice([np.int64, np.int32, np.float32])))
             if r2.random() < 0.3:
